@@ -19,10 +19,12 @@ TRUSTED = ["model: lean/Srctools/Model/C07.lean (indexes as relations key x enti
            "ASCII lower-casing + per-character table in the driver); call-site shapes regenerated from vmf.py by tools/gen_c07.py",
            "entity objects are identified with their creation order per map; CopySet iteration order is not part of the property "
            "(loop bodies used by the generator commute)"]
-NOT_MODELLED = ['nodeid bookkeeping, entity ids, solids/outputs/fixups (none touches an index)',
+NOT_MODELLED = ['callers mutating the dict returned by the deprecated Entity.keys getter (documented private)',
+                'nodeid bookkeeping, entity ids, solids/outputs/fixups (none touches an index)',
                 'set-object identity of a CopySet that is emptied and re-created while being iterated',
                 'iteration of search() results while mutating']
 ASSUMPTIONS = ["str.casefold is idempotent and fixes 'classname', 'targetname', 'worldspawn' (theorem hypothesis FoldOK)",
+               "setdefault / |= are the mixins inherited from MutableMapping (no override): audited by the translator on every run",
                "API preconditions (theorem hypothesis Valid): add_ent/add_ents are given entities constructed for this map, "
                "not already in it and not the worldspawn; operations name existing entity objects"]
 
